@@ -320,7 +320,10 @@ impl Ctx {
                 samples.push(json!({"space": s.name, "case": v}));
             }
             let outcomes = s.outcomes.lock().unwrap().clone();
-            if e > 1 && outcomes.len() == 1 && self.replay.is_none() {
+            // A single outcome class means the space exercised nothing - unless the run
+            // already reports violations: a broken library may well answer everything the
+            // same way, and that is a verdict (exit 1), not a machinery problem (exit 2).
+            if e > 1 && outcomes.len() == 1 && self.replay.is_none() && self.violations_so_far() == 0 {
                 self.machinery_error(format!("vacuous space {}: {} evaluations, one outcome class {:?}", s.name, e, outcomes.keys().next()));
             }
             if e == 0 && self.replay.is_none() {
